@@ -7,7 +7,10 @@ RULE_SCHED = ("runs are generated from a decision tape seeded by (VERIF_SEED, sc
               "unioned over all workers.")
 
 TRUST = ("trusted base: Go 1.26.8 runtime and testing/synctest (quiescence detection, fake clock); the harness kernel in /verif/sim; "
-         "internal library goroutines are never delayed relative to each other; preemption only at simhook points; sampled, not exhaustive")
+         "a copy of runtime/select.go with a seedable poll order (build-time overlay); preemption only at hook points - hand-placed simhook calls "
+         "and the mechanical ones of gen/autohook (lock gates, yields after Unlock, before select/send, at the start of goroutine literals and "
+         "of their loops); goroutines the library starts are scheduled eagerly in half of the runs and as tasks of their own in the other half "
+         "(those started by a scenario's set-up code always eagerly); sampled, not exhaustive")
 
 NOT_APPLICABLE = {
     "C05": "pure function of (stored message, written message, masks): no schedule, clock, fault or second party for a simulator to control",
@@ -151,7 +154,7 @@ PROPS = {
             {"name": "shut-res", "quick": 40000, "thorough": 3000000, "thorough_time": 250},
         ],
         "require_hits": ["cancel", "abandon", "bus.collect", "bus.listen.register", "bus.send.each"],
-        "assumptions": ["listener.stop runs on an internal goroutine and is never delayed relative to other internal goroutines"],
+        "assumptions": ["a listener's shutdown goroutine is delayed only in lazy runs; the late-delivery oracle applies to eager runs"],
     },
     "C04": {
         "level": "exploration",
@@ -218,6 +221,6 @@ PROPS = {
             {"name": "conv-coll", "quick": 40000, "thorough": 3000000, "thorough_time": 200},
         ],
         "require_hits": ["value.sub.listen", "collection.sub.listen", "value.publish", "collection.publish", "bus.send.each", "bus.listen.register"],
-        "assumptions": ["internal library goroutines react immediately (never delayed relative to each other)", "preemption only at hook points"],
+        "assumptions": ["preemption only at hook points (hand-placed and mechanical)"],
     },
 }
